@@ -1,26 +1,6 @@
 import Txtpp.Model.Tag
 namespace Txt
 
-abbrev Match := Nat × Str × Str
-
-def matchesOf (stored : List (Str × Str)) (line : Str) : List Match :=
-  stored.filterMap (fun kv => (findIdx kv.1 line).map (fun i => (i, kv.1, kv.2)))
-
-def mle (a b : Match) : Bool := decide (a.1 ≤ b.1)
-
-def sortM (l : List Match) : List Match := l.mergeSort mle
-
-/-- the `for (i, key, value) in &to_inject` loop of `inject_tags`; `norm` = `replace_line_ending(le, false)` -/
-def injLoop (norm : Str → Str) (line : Str) : List Match → Nat → Str → List Str → Str × List Str
-  | [], lastEnd, acc, rem => (acc ++ line.drop lastEnd, rem)
-  | (i, k, v) :: ms, lastEnd, acc, rem =>
-    if i < lastEnd then injLoop norm line ms lastEnd acc rem
-    else injLoop norm line ms (i + k.length) (acc ++ (line.drop lastEnd).take (i - lastEnd) ++ norm v) (k :: rem)
-
-def TagState.inject (t : TagState) (norm : Str → Str) (line : Str) : Str × TagState :=
-  let r := injLoop norm line (sortM (matchesOf t.stored line)) 0 [] []
-  (r.1, { t with stored := t.stored.filter (fun kv => !r.2.contains kv.1) })
-
 theorem findIdx_prefix (k line : Str) (i : Nat) (h : findIdx k line = some i) : k <+: line.drop i := by
   unfold findIdx at h
   cases hf : findSub k line with
@@ -62,19 +42,61 @@ theorem match_same_index (stored : List (Str × Str)) (hpf : PrefixFree stored) 
   have := pairwise_eq_of_related stored hpf kva kvb hkva hkvb (prefix_related _ _ _ h1 h2)
   subst this; rfl
 
+theorem insertM_perm (a : Match) (l : List Match) : (insertM a l).Perm (a :: l) := by
+  induction l with
+  | nil => exact List.Perm.refl _
+  | cons b bs ih =>
+    simp only [insertM]
+    split
+    · exact List.Perm.refl _
+    · exact (List.Perm.cons b ih).trans (List.Perm.swap a b bs)
+
+theorem sortM_perm (l : List Match) : (sortM l).Perm l := by
+  induction l with
+  | nil => exact List.Perm.refl _
+  | cons a l ih => exact (insertM_perm a _).trans (List.Perm.cons a ih)
+
+def SortedM (l : List Match) : Prop := l.Pairwise (fun a b => a.1 ≤ b.1)
+
+theorem insertM_sorted (a : Match) (l : List Match) (h : SortedM l) : SortedM (insertM a l) := by
+  induction l with
+  | nil => simp [insertM, SortedM]
+  | cons b bs ih =>
+    simp only [insertM]
+    unfold SortedM at h ih ⊢
+    rw [List.pairwise_cons] at h
+    split
+    · rename_i hab
+      rw [List.pairwise_cons]
+      refine ⟨?_, List.pairwise_cons.2 h⟩
+      intro c hc
+      simp only [List.mem_cons] at hc
+      rcases hc with rfl | hc
+      · exact hab
+      · exact Nat.le_trans hab (h.1 c hc)
+    · rename_i hab
+      rw [List.pairwise_cons]
+      refine ⟨?_, ih h.2⟩
+      intro c hc
+      have := (insertM_perm a bs).subset hc
+      simp only [List.mem_cons] at this
+      rcases this with rfl | hc'
+      · omega
+      · exact h.1 c hc'
+
+theorem sortM_sorted (l : List Match) : SortedM (sortM l) := by
+  induction l with
+  | nil => simp [sortM, SortedM]
+  | cons a l ih => exact insertM_sorted a _ ih
+
 theorem sortM_perm_eq (m1 m2 : List Match) (hp : m1.Perm m2)
     (hinj : ∀ a b, a ∈ m1 → b ∈ m1 → a.1 = b.1 → a = b) : sortM m1 = sortM m2 := by
-  have htrans : ∀ (a b c : Match), mle a b = true → mle b c = true → mle a c = true := by
-    intro a b c; simp only [mle, decide_eq_true_eq]; omega
-  have htotal : ∀ (a b : Match), (mle a b || mle b a) = true := by
-    intro a b; simp only [mle, Bool.or_eq_true, decide_eq_true_eq]; omega
-  have s1 := List.pairwise_mergeSort htrans htotal m1
-  have s2 := List.pairwise_mergeSort htrans htotal m2
-  have p1 : (sortM m1).Perm m1 := List.mergeSort_perm m1 mle
-  have p2 : (sortM m2).Perm m2 := List.mergeSort_perm m2 mle
-  apply List.Perm.eq_of_pairwise (le := fun a b => mle a b = true) ?_ s1 s2 (p1.trans (hp.trans p2.symm))
+  have p1 := sortM_perm m1
+  have p2 := sortM_perm m2
+  have s1 : (sortM m1).Pairwise (fun a b => a.1 ≤ b.1) := sortM_sorted m1
+  have s2 : (sortM m2).Pairwise (fun a b => a.1 ≤ b.1) := sortM_sorted m2
+  apply List.Perm.eq_of_pairwise (le := fun a b => a.1 ≤ b.1) ?_ s1 s2 (p1.trans (hp.trans p2.symm))
   intro a b ha hb hab hba
-  simp only [mle, decide_eq_true_eq] at hab hba
   have ha' : a ∈ m1 := p1.subset ha
   have hb' : b ∈ m1 := hp.symm.subset (p2.subset hb)
   exact hinj a b ha' hb' (by omega)
